@@ -979,8 +979,8 @@ impl Gen {
                 Kind::Flatten { p, o, d: Box::new(d) }
             } else if r < 8 {
                 self.raw_entry(by_ref)
-            } else if (r < 16 && !(named && in_variant)) || (!named) {
-                // #[metrics(ignore)] in a struct VARIANT does not compile (close impl names the dropped field), see docs/C07.md
+            } else if r < 16 || (!named) {
+                // (ignore in a struct VARIANT did not compile before the repository's third fix: commit, see docs/C07.md)
                 Kind::Ignore
             } else if r < 21 && !have_ts {
                 have_ts = true;
